@@ -76,9 +76,29 @@ def hmax(kind, p1, p2, p3):
     return max(abs(p2), abs(p3), math.hypot(p2, p3))
 
 
+import random as _random
+READS = _random.Random(0)      # re-seeded from the check's seed in run(); "always" in replays
+READ_MODE = ["random"]
+
+
+def maybe_read(sig):
+    """Every application of a filter in this check runs in one of the orders  filter -> read,
+    read -> filter -> read, read -> filter -> filter -> read (reads are .values, .spectrum, .envelope,
+    .frequencies): a filter must act on what is read afterwards whether or not the object was read before."""
+    u = 0.0 if READ_MODE[0] == "always" else READS.random()
+    if u < 0.35:
+        np.asarray(sig.values)
+    elif u < 0.45:
+        np.asarray(sig.spectrum)
+    elif u < 0.5:
+        np.asarray(sig.envelope)
+        np.asarray(sig.frequencies)
+
+
 def impl_filter(times, values, g, fr):
     import pyrex
     s = pyrex.Signal(np.array(times, dtype=float), np.array(values, dtype=float))
+    maybe_read(s)
     s.filter_frequencies(g, force_real=bool(fr))
     return np.array(s.values, dtype=float)
 
@@ -88,6 +108,7 @@ def impl_function_signal(times, values, filters):
     vals = np.array(values, dtype=float)
     fs = pyrex.FunctionSignal(np.array(times, dtype=float), lambda t: vals.copy())
     for g, fr in filters:
+        maybe_read(fs)
         fs.filter_frequencies(g, force_real=bool(fr))
     return np.array(fs.values, dtype=float)
 
@@ -451,7 +472,7 @@ def correspondence(ctx, exe, count):
                     bad += 1
                     lim.fail(tag, "corr:%s:n=%d:step=%d" % (tag, c["n"], i),
                              "application %d of the SAME stored response (%s via %s, force_real=%d) differs from the model of the pure response: |impl-model|=%.3g > %.3g "
-                             "(the result depends on how often the response object was used before); case %s"
+                             "(the result depends on how often the response object was used before, or on whether the signal was read before it was filtered); case %s"
                              % (i + 1, c["mode"], c["steps"][i]["target"], c["steps"][i]["fr"], d, tol, short(c)), {"kind": "corr", "case": c, "step": i})
                     break
             if not intact:
@@ -496,6 +517,79 @@ def correspondence(ctx, exe, count):
                                    "tolerance": "1e-9 * max|x| * max(1, max|H|) per sample (spectrum: * N; frequencies: exact); histories: every application of one stored response object against the model of the pure response, tables unmodified"}
 
 
+# ----------------------------------------------------------------------------- derived FunctionSignals
+def derived_eval(n, times, x, y, resp, fr, q, verbose=False):
+    """Filtering a signal DERIVED from a FunctionSignal (copy, scalar multiple, sum, EmptySignal sum, with_times)
+    must not filter the original: afterwards the original under the unit response is still itself (identity
+    clause) and F(a) + F(b) = F(a + b) also when the sum object is filtered before the operands (linearity).
+    Oracle: plain Signal objects holding the same samples."""
+    import pyrex
+    t = np.array(times, dtype=float)
+    xa, ya = np.array(x, dtype=float), np.array(y, dtype=float)
+    g = py_response(int(resp[0]), *resp[1:])
+    a = pyrex.FunctionSignal(t.copy(), lambda tt: xa.copy())
+    b = pyrex.FunctionSignal(t.copy(), lambda tt: ya.copy())
+    expect_a = xa
+    h = hmax(int(resp[0]), *resp[1:])
+    if q.get("pre"):
+        gp = py_response(int(q["pre"][0]), *q["pre"][1:4])
+        a.filter_frequencies(gp, force_real=bool(q["pre"][4]))
+        expect_a = impl_filter(times, x, gp, q["pre"][4])
+        h *= max(1.0, hmax(int(q["pre"][0]), *q["pre"][1:4]))
+    maybe_read(a)
+    kind = q["derive"]
+    tol = 6 * probe_tol(n, snorm(xa) + snorm(ya), h * h)
+    if kind == "sum-first":
+        s_ = a + b
+        s_.filter_frequencies(g, force_real=bool(fr))
+        fsum = np.asarray(s_.values, dtype=float)
+        maybe_read(a)
+        a.filter_frequencies(g, force_real=bool(fr))
+        b.filter_frequencies(g, force_real=bool(fr))
+        fa, fb = np.asarray(a.values, dtype=float), np.asarray(b.values, dtype=float)
+        pa = impl_filter(times, list(expect_a), g, fr) if not q.get("pre") else None
+        d = float(np.max(np.abs(fsum - (fa + fb))))
+        d2 = float(np.max(np.abs(fa - pa))) if pa is not None else 0.0
+        if verbose:
+            print("F(a+b) (sum object filtered first):", fsum[:6], "\nF(a) + F(b) (operands filtered afterwards):", (fa + fb)[:6])
+            print("max diff %.3g; F(a) vs the same filter on a plain Signal: %.3g; tolerance %.3g" % (d, d2, tol))
+        if not (d <= tol and d2 <= tol):
+            return ("FunctionSignal: the sum a+b was filtered first, then the operands: F(a)+F(b) differs from F(a+b) by %.3g and F(a) from the plain-Signal "
+                    "result by %.3g (tolerance %.3g, n=%d, %s, force_real=%d): filtering the sum reached the operands" % (d, d2, tol, n, KIND_NAMES[int(resp[0])], fr))
+        return None
+    if kind == "copy":
+        dsig = a.copy()
+    elif kind == "rmul":
+        dsig = q["c"] * a
+    elif kind == "mul":
+        dsig = a * q["c"]
+    elif kind == "div":
+        dsig = a / q["c"]
+    elif kind == "add":
+        dsig = a + b
+    elif kind == "empty+":
+        dsig = pyrex.EmptySignal(t.copy()) + a
+    elif kind == "+empty":
+        dsig = a + pyrex.EmptySignal(t.copy())
+    else:
+        dsig = a.with_times(t.copy())
+    dsig.filter_frequencies(g, force_real=bool(fr))
+    np.asarray(dsig.values)
+    # the original is still what it was: directly, and under the unit response
+    v1 = np.asarray(a.values, dtype=float)
+    a.filter_frequencies(lambda f: np.ones(np.shape(f)), force_real=bool(fr))
+    v2 = np.asarray(a.values, dtype=float)
+    d1, d2 = float(np.max(np.abs(v1 - expect_a))), float(np.max(np.abs(v2 - expect_a)))
+    if verbose:
+        print("derived signal: %s, then filtered with %s" % (kind, KIND_NAMES[int(resp[0])]))
+        print("original afterwards        :", v1[:6], "\noriginal, unit response    :", v2[:6], "\nexpected (plain Signal)    :", np.asarray(expect_a)[:6])
+        print("max diffs %.3g / %.3g, tolerance %.3g" % (d1, d2, tol))
+    if not (d1 <= tol and d2 <= tol):
+        return ("FunctionSignal: after filtering a signal derived from it (%s) with %s, the ORIGINAL changed: values differ by %.3g, and by %.3g under the unit "
+                "response (tolerance %.3g, n=%d, force_real=%d)" % (kind, KIND_NAMES[int(resp[0])], d1, d2, tol, n, fr))
+    return None
+
+
 # ----------------------------------------------------------------------------- FunctionSignal buffers
 def pulse(A, c0, w, nu):
     """A smooth function of absolute time (Python only; the model receives its values on the model's own grid)."""
@@ -534,6 +628,7 @@ def make_function_signal(times, func, lead, trail, filters, via_with_times):
         fs = pyrex.FunctionSignal(t, func)
         fs.set_buffers(leading=lead, trailing=trail)
     for g, fr in filters:
+        maybe_read(fs)
         fs.filter_frequencies(g, force_real=bool(fr))
     return fs
 
@@ -699,8 +794,8 @@ def probes(ctx, count, nmax):
         g = py_response(k, p1, p2, p3)
         h = hmax(k, p1, p2, p3)
         base = {"n": n, "times": times, "values": x, "values2": y, "resp": [k, p1, p2, p3], "fr": fr}
-        rel = ["linear", "stateful", "scale", "homogeneous", "buffer", "identity", "stateful", "offset", "scale", "force_real", "passive", "buffer",
-               "delay", "function_signal"][it % 14]
+        rel = ["linear", "stateful", "scale", "derived", "homogeneous", "buffer", "identity", "stateful", "offset", "derived", "scale", "force_real",
+               "passive", "buffer", "delay", "function_signal"][it % 16]
         stats[rel] = stats.get(rel, 0) + 1
         ctx.case(key=("probe", rel, n, k, fr, hexs(x[:6])), nontrivial=True,
                  sample={"probe": rel, "n": n, "dt": dt, "response": KIND_NAMES[k], "force_real": fr} if it < 8 else None)
@@ -763,6 +858,12 @@ def probes(ctx, count, nmax):
                 if not d <= tol:
                     report(rel, "n=%d" % n, "filter is not homogeneous in the signal: F(c x) differs from c F(x) by %.3g > %.3g for c=%r, max|c x|=%.3g "
                            "(n=%d, %s, %s, force_real=%d)" % (d, tol, cc, float(np.max(np.abs(cc * xs))), n, via, KIND_NAMES[k], fr), dict(base, values=list(xs), c=cc, via=via))
+            elif rel == "derived":
+                q = {"derive": rng.choice(["copy", "rmul", "mul", "div", "add", "empty+", "+empty", "with_times", "sum-first"]),
+                     "pre": [k, p1, p2, p3, fr] if rng.random() < 0.5 else None, "c": rng.choice([2.0, 0.5, -3.0])}
+                res = derived_eval(n, times, x, y, [k, p1, p2, p3], fr, q)
+                if res:
+                    report(rel, "n=%d:%s" % (n, q["derive"]), res, dict(base, **q))
             elif rel == "buffer":
                 res = buffer_probe(rng, n, times)
                 if res:
@@ -917,6 +1018,8 @@ def run(ctx):
                         "vectorised and scalar evaluation of a response are the same map (validated by the scalar-only responses)",
                         "warnings/logging of filter_frequencies are not modelled",
                         "force_real clause assumes dt > 0; delay clause is for whole-sample delays 0 <= m <= N"]
+    READS.seed(ctx.seed * 31 + 7)
+    READ_MODE[0] = "random"
     ok = ctx.coq_build("C05")
     exe = dft_extract.build(ctx, "c05", EXTRACT_REQ, EXTRACT_CMD, "filt", "c05_driver.ml")
     before = len(ctx.failures)
@@ -934,6 +1037,7 @@ def run(ctx):
 
 def replay(ctx, obj):
     np.set_printoptions(precision=17)
+    READ_MODE[0] = "always"          # replays read .values before every filter call (the order that exposes stale caches)
     if obj.get("broken"):
         print("no concrete input: broken obligations", obj["broken"])
         return 1
@@ -981,6 +1085,10 @@ def replay(ctx, obj):
         d = float(np.max(np.abs(iv - mv))) if iv.shape == mv.shape else float("inf")
         print("implementation values:", iv[:8], "\nmodel values         :", mv[:8], "\nmax diff %.3g" % d)
         return 0 if d <= 1e-9 * float(np.max(np.abs(fv))) * 16 + tol_floor(len(fv)) else 1
+    if obj.get("kind") == "probe" and obj.get("relation") == "derived":
+        res = derived_eval(obj["n"], obj["times"], obj["values"], obj["values2"], obj["resp"], obj["fr"], obj, verbose=True)
+        print("->", "DISAGREE: " + res if res else "AGREE")
+        return 1 if res else 0
     if obj.get("kind") == "probe" and obj.get("relation") == "buffer":
         res = buffer_eval(obj["n"], obj["times"], obj, verbose=True)
         print("->", "DISAGREE: " + res[1] if res else "AGREE")
